@@ -58,6 +58,7 @@ type c11Scenario struct {
 	payloadUsesPath bool
 	twin      string // r2 uses a second catalogue mechanism that differs from the first only in this endpoint header value
 	usesExtra2 bool  // X-Extra2 reaches the party
+	cookie     bool  // ... as the cookie extra2
 	viaOutputs bool  // the extra client header reaches the party only through .Outputs of an earlier (uncached) step
 	variation  string // name of the drawn variation of the basic configuration ("" = none)
 	signed     bool   // requests to the party carry an RFC 9421 signature (differs per request)
@@ -324,6 +325,11 @@ func c11Build(s *simcore.Source) c11Scenario {
 		if sc.kind == "contextualizer" && s.Draw(3, "forward-extra") == 2 {
 			fwd = "        forward_headers: [ \"X-Extra\" ]\n"
 			sc.usesExtra, sc.extraHow = true, "forwarded header"
+		}
+		if sc.kind == "contextualizer" && s.Draw(3, "forward-cookie") == 2 {
+			// the second client-supplied value travels in a cookie which the contextualizer passes on
+			fwd += "        forward_cookies: [ \"extra2\" ]\n"
+			sc.usesExtra2, sc.cookie = true, true
 		}
 		urlPath := "/check/{{ .Values.v1 }}"
 		if sc.kind == "contextualizer" {
@@ -662,6 +668,9 @@ func c11Do(e *env, sc c11Scenario, q c11Req) c11Obs {
 	}
 	if q.extra2 != "" {
 		hdr["X-Extra2"] = q.extra2
+		if sc.cookie {
+			hdr["Cookie"] = "extra2=" + q.extra2
+		}
 	}
 	res := e.do("GET", "http://heimdall.local/"+q.rule+"/"+q.id, hdr)
 	o := c11Obs{status: res.status, user: res.header.Get("X-User"), digest: res.header.Get("X-Digest"), allowed: res.allowed}
